@@ -502,6 +502,8 @@ func cacheEngine(c *Ctx) {
 				cacheExec(c, op)
 			} else if strings.HasPrefix(op, "cache-foreign ") {
 				cacheForeignOrder(c, op)
+			} else if strings.HasPrefix(op, "cache-keyedlookup ") {
+				cacheKeyedLookup(c, op)
 			} else if strings.HasPrefix(op, "cache-commitfails ") {
 				cacheCommitFails(c, op)
 			}
@@ -514,6 +516,8 @@ func cacheEngine(c *Ctx) {
 	for i, how := range []string{"dangling", "dangling2", "readonly", "dangling", "readonly", "dangling2", "xdev", "xdev"} {
 		cacheCommitFails(c, fmt.Sprintf("cache-commitfails %s %s %s", []string{"tar", "zip"}[i%2], how, []string{"none", "copy", "mount", "copy", "none", "none", "none", "copy"}[i]))
 	}
+	cacheKeyedLookup(c, "cache-keyedlookup tar")
+	cacheKeyedLookup(c, "cache-keyedlookup zip")
 	n := 25
 	if c.Tier == "thorough" {
 		n = 400
@@ -587,6 +591,65 @@ func cacheEngine(c *Ctx) {
 	cacheExec(c, fmt.Sprintf("cache 902 1 0,%s,copy;0,%s,none %s -", ll, devIgn, seq(2)))
 	cacheExec(c, fmt.Sprintf("cache 903 1 0,%s,none;0,%s,copy;0,%s,copy %s -", devIgn, devIgn, ll, rr(3)))
 	cacheExec(c, fmt.Sprintf("cache 904 2 0,%s,copy;1,%s,mount;0,%s,copy %s 0", devIgn, devIgn, devIgn, rr(3)))
+}
+
+// cacheKeyedLookup: every directory below <cache>/<type>/fileset/x/y/ is a shelf some request can name. After unpacks with
+// every kind of filter, a lossless request naming any shelf directory that is not a ware id this run verified — no
+// warehouse is given, so nothing can be fetched or checked — must not be answered from the cache.
+// Recipe: "cache-keyedlookup <tar|zip>".
+func cacheKeyedLookup(c *Ctx, op string) {
+	c.Begin(op)
+	fmtName := strings.Fields(op)[1]
+	caseCounter++
+	base := filepath.Join(c.Work, fmt.Sprintf("ckl%d", caseCounter))
+	defer rmrf(base)
+	src, wh, cache := filepath.Join(base, "src"), filepath.Join(base, "wh"), filepath.Join(base, "cache")
+	os.MkdirAll(filepath.Join(src, "d"), 0755)
+	os.MkdirAll(wh, 0755)
+	os.WriteFile(filepath.Join(src, "d", "f"), []byte("content "+op), 0644)
+	for _, p := range []string{"d/f", "d", "."} {
+		os.Chtimes(filepath.Join(src, p), time.Unix(1e9, 0), time.Unix(1e9, 0))
+	}
+	os.Setenv("RIO_CACHE", cache)
+	os.Setenv("RIO_BASE", filepath.Join(base, "riobase"))
+	ctx := context.Background()
+	fn := funcsFor(fmtName)
+	c.EmitR(op, "skip", "skip")
+	id, err := fn.pack(ctx, api.PackType(fmtName), src, api.MustParseFilesetPackFilter(losslessPackStr), whAddr("ca", wh), rio.Monitor{})
+	if err != nil {
+		return
+	}
+	verified := map[string]bool{}
+	for _, fl := range []string{losslessUnpackStr,
+		"uid=follow,gid=follow,mtime=follow,sticky=follow,setid=follow,dev=ignore",
+		"uid=follow,gid=follow,mtime=follow,sticky=ignore,setid=ignore,dev=ignore",
+		"uid=0,gid=0,mtime=follow,sticky=follow,setid=follow,dev=follow",
+		"uid=follow,gid=follow,mtime=@86400,sticky=follow,setid=follow,dev=follow"} {
+		got, uerr, _ := safeCall(func() (api.WareID, error) {
+			return fn.unpack(ctx, id, "-", api.MustParseFilesetUnpackFilter(fl), rio.Placement_None, []api.WarehouseLocation{whAddr("ca", wh)}, rio.Monitor{})
+		})
+		if uerr == nil {
+			verified[got.Hash] = true
+		}
+	}
+	ms, _ := filepath.Glob(filepath.Join(cache, fmtName, "fileset", "*", "*", "*"))
+	c.H(fmt.Sprintf("cache-keyedlookup:%s:shelves=%d", fmtName, len(ms)))
+	for _, m := range ms {
+		name := filepath.Base(m)
+		if verified[name] {
+			continue
+		}
+		dst := filepath.Join(base, "out")
+		got, uerr, pan := safeCall(func() (api.WareID, error) {
+			return fn.unpack(ctx, api.WareID{Type: api.PackType(fmtName), Hash: name}, dst, api.MustParseFilesetUnpackFilter(losslessUnpackStr), rio.Placement_Copy, nil, rio.Monitor{})
+		})
+		rmrf(dst)
+		if pan != "" {
+			c.PropFail("cache-panic", "a request spelled like a shelf directory panicked: "+pan, op)
+		} else if uerr == nil {
+			c.PropFail("shelf-not-verified", fmt.Sprintf("a lossless request for %q — not the id of any fileset, nothing was fetched or hashed, no warehouse given — was answered %s from the shelf of a filtered tree", name, got), op)
+		}
+	}
 }
 
 // cacheForeignOrder: wares written by somebody else — entries in any order (children before their directory's own entry),
